@@ -55,6 +55,12 @@ def build_harness(tags="verif", race=False):
     shutil.copyfile(os.path.join(REPO, "go.sum"), os.path.join(HARNESS, "go.sum"))
     out = os.path.join(HARNESS, "bin", "harness-race" if race else "harness")
     cmd = ["go", "build", "-tags", tags, "-o", out]
+    if REPO != "/repo":
+        # a scratch worktree of the repository (VERIF_REPO): same harness, module paths redirected
+        alt = os.path.join(HARNESS, "bin", "alt.mod")
+        open(alt, "w").write(open(os.path.join(HARNESS, "go.mod")).read().replace("=> /repo", "=> " + REPO))
+        shutil.copyfile(os.path.join(REPO, "go.sum"), os.path.join(HARNESS, "bin", "alt.sum"))
+        cmd += ["-modfile", alt]
     env = goenv()
     if race:
         cmd.insert(2, "-race")
